@@ -370,9 +370,13 @@ class Forwarding:
               src: Optional[int] = None) -> Tuple[bool, str]:
         """Does fi (resolved in the context of concrete class C) forward the hook to member on every
         path to a normal return?"""
+        inl = getattr(self.prog, "inliner", None)
+        if inl is not None and isinstance(C, ClassInfo):
+            fi = inl.specialise(fi, C)  # template methods: private helpers resolved for the concrete receiver class
         fa0 = fa_of(self.prog, fi)
         fa = fa0.prune(assume) if assume else fa0
         removed, narrow = self.guard_edges(fa, member, needed)
+        cfg_unguarded = fa.cfg       # early exits are judged here: another element may fail the guard
         if removed:
             fa = fa.with_cfg(fa.cfg.pruned(removed))
             if assume:
@@ -404,10 +408,10 @@ class Forwarding:
                 if body_entry is None:
                     continue
                 inner = [x for x in nodes if x != n]
-                early = _early_exits(cfg, loop)
+                early = _early_exits(cfg_unguarded, loop)
                 if early:
                     notes.append("the loop at line %d can be left early (break / return at line %s): later members are not "
-                                 "reached" % (nd.lineno, ", ".join(str(cfg.nodes[e].lineno) for e in early)))
+                                 "reached" % (nd.lineno, ", ".join(str(cfg_unguarded.nodes[e].lineno) for e in early)))
                 elif body_entry in inner or not cfg.reachable(body_entry, n, avoid=set(inner)):
                     through.add(cfg.stmt_node[loop])
                 else:
